@@ -522,3 +522,41 @@ class GhostDict:
 
     def __iter__(self):
         raise GhostUnsupported(f"iteration over the opaque dict {self._name}")
+
+
+class Opaque:
+    """an element / value whose content the code under contract must not look at (modular contracts: generic element of a ghost sequence, result of a
+    stubbed callee); any access other than identity is outside the contract's frame and reported as Unsupported"""
+
+    def __init__(self, label, **info):
+        object.__setattr__(self, "_label", label)
+        object.__setattr__(self, "_info", info)
+
+    def __getattr__(self, a):
+        if a.startswith("__"):
+            raise AttributeError(a)
+        raise GhostUnsupported(f"read of .{a} on the opaque value {self._label}")
+
+    def __setattr__(self, a, v):
+        raise GhostUnsupported(f"write of .{a} on the opaque value {self._label}")
+
+    def __deepcopy__(self, memo):
+        return Opaque(("copy", self._label), of=self)
+
+    def __repr__(self):
+        return f"<opaque {self._label}>"
+
+
+def stub(h, relfile, qualname, fn, log=None):
+    """replace the repository function relfile::qualname by its CONTRACT for this run (modular verification: the caller is checked against the callee's
+    contract, not its body).  fn(args, kwargs) -> result; calls are appended to `log` as (args, kwargs)"""
+    if not h.symbolic:
+        raise HarnessError("stubs exist in symbolic runs only")
+    h.I._touch_stub = getattr(h.I, "_touch_stub", [])
+    h.I._touch_stub.append(f"{relfile}::{qualname}")
+
+    def run(interp, args, kwargs):
+        if log is not None:
+            log.append((list(args), dict(kwargs)))
+        return fn(list(args), dict(kwargs))
+    h.I.stubs[(relfile, qualname)] = run
